@@ -131,8 +131,8 @@ var slotKinds = map[string]string{
 	"CRCProposalCustomID": "string", "CRCProposalRegisterSideChainName": "string",
 	"CRCProposalRegisterSideChainMagicNumber": "string", "CRCAppropriationKey": "string", "CRCSecretaryGeneral": "string",
 	"CustomIDProposalResult": "string", "RevertToDPOSHash": "string", "VotesRealWithdraw": "string",
-	"createnftstakeaddr": "string",
-	"ProgramCode":         "code",
+	"createnftstakeaddr":   "string",
+	"ProgramCode":          "code",
 	"CRCProposalDraftHash": "hash", "CRCProposalHash": "hash", "CRCProposalTrackingHash": "hash",
 	"CRCProposalRegisterSideChainGenesisHash": "hash", "CRCProposalRealWithdrawKey": "hash",
 	"DposV2ClaimRewardRealWithdrawKey": "hash", "CloseProposalTargetProposalHash": "hash",
@@ -718,8 +718,8 @@ func expectedIndex(st rep.Step) (map[string]map[string]string, error) {
 			if !ok {
 				return nil, fmt.Errorf("no real key for %s / %q", slot, sym)
 			}
-			if prev, dup := res[slot][rk]; dup && prev != owner {
-				return nil, fmt.Errorf("symbolic keys of slot %s collide on %s", slot, rk)
+			if _, dup := res[slot][rk]; dup {
+				return nil, fmt.Errorf("two symbolic keys of slot %s map to the real key %s", slot, rk)
 			}
 			res[slot][rk] = owner + "\x00" + sym
 		}
